@@ -1231,7 +1231,7 @@ func (i *Interp) callBuiltin(caller *frame, fn *ssa.Builtin, args []value) value
 	case "len":
 		switch x := args[0].(type) {
 		case Str:
-			if x.opaque {
+			if x.opaque && x.doc == nil {
 				return poison{"len of opaque string"}
 			}
 			return c.Const(i64, uint64(x.Len()))
